@@ -115,6 +115,10 @@ PlainSet == TLCEval({u \in 0..NU : u = 0 \/ (Units[u].name \notin OffsetNames /\
 ExactSet == TLCEval({u \in 0..NU : u = 0 \/ Units[u].m10ok})
 RadIdx == CHOOSE u \in 1..NU : Units[u].name = "rad"
 Plain(u) == u \in PlainSet
+\* members of a dimension class (by representative); every w with SRule(v, w) in {linear, inverse} lies in
+\* the class of v or in the negated class
+Members == TLCEval([c \in 0..NU |-> {w \in 1..NU : DimId[w] = c /\ w \in PlainSet}])
+Related(v) == Members[DimId[v]] \cup (IF NegId[v] >= 0 THEN Members[NegId[v]] ELSE {})
 \* the rule for two plain single units by class ids only
 SRule(u, v) == IF DimId[u] = DimId[v] THEN "linear"
                ELSE IF NegId[u] = DimId[v] THEN "inverse"
